@@ -614,14 +614,13 @@ class Leps(ObsFcstBased):
 
     def _compute_from_obs_fcst(self, obs, fcst):
         N = len(obs)
-        # Compute obs quantiles
-        Iobs = np.array(np.argsort(obs), 'float')
-        qobs = Iobs / N
+        # Compute obs quantiles (empirical CDF of the observations at each observation)
+        sortobs = np.sort(obs)
+        qobs = np.searchsorted(sortobs, obs, side="right") / float(N)
 
         # Compute the quantiles that the forecasts are relative
         # to the observations
         qfcst = np.zeros(N, 'float')
-        sortobs = np.sort(obs)
         for i in range(0, N):
             I = np.where(fcst[i] < sortobs)[0]
             if len(I > 0):
